@@ -28,6 +28,8 @@ def run(ctx):
     res.rule("C01-R7", "tagged with the encoder's ids, version and message type of the batch: wherever a packet's raw CMP header enters the frame template "
                         "(or a frame), device id and stream id are overridden from the encoder's members afterwards, the raw header carries the packet's "
                         "version and message type on every path, every frame is a copy of the template, and changing an id invalidates the template (C09-R3)")
+    res.rule("C01-R8", "header fields survive the trip: for every field of CmpHeader and MessageHeader the getter returns what the setter stored, for all "
+                        "values (G4, shared with C11-R2), and the message type is handed through whether or not the API names it")
     res.not_decided += ["byte equality of decoded and original packets over all batches x frame sizes (run-time values)",
                         "mixed batches (C08-R3), layout premises (C12), decoder premises (C04/C05)"]
     n1 = E.rule_segment_source_advances(res, "C01-R1", m)
@@ -51,6 +53,15 @@ def run(ctx):
         if o["rule"] == "C04-R3" and o["key"].startswith("error-bits"):
             res.check(o["ok"], "C01-R6", o["key"], o["loc"], o["detail"], o["detail"])
     res.floor("C01-R6", 2)
+    # what the encoder writes into the two headers, the decoder reads back: get(set(v)) == v for every field of the frame header and the
+    # message header and for every value — message types the API does not name included (a generic message of type 0x04 comes back as 0x04)
+    from cmpverif import accessors
+    obs, ast = accessors.analyse(fb, ctx.spec("layout.json"), scope=lambda cls, stem: cls in ("ASAM::CMP::CmpHeader", "ASAM::CMP::MessageHeader"))
+    for o in obs:
+        if o.cls in ("ASAM::CMP::CmpHeader", "ASAM::CMP::MessageHeader") and (o.tag == "readback" or o.key.endswith("[open]")):
+            res.check(o.ok, "C01-R8", o.key, o.loc, o.detail)
+    accessors.require_supported(ast)
+    res.floor("C01-R8", 12)
     res.floor("C01-R1", 1, n1)
     res.floor("C01-R4", 25)
     res.floor("C01-R2", 9)
